@@ -2,7 +2,7 @@ SPECIFICATION Spec
 CONSTANTS
   Focus = {"n"}
   NDcf = 2
-  MaxArgv = 3
+  MaxArgv = 2
   Emit = TRUE
 INVARIANT DocumentedOrder
 INVARIANT StagesAgree
